@@ -1,0 +1,17 @@
+//go:build verif
+
+package packet
+
+// Build tag "verif": gate points of the verification harness. VfGateFn is nil
+// unless a harness test installs a director before it starts a pipeline; a
+// director blocks the calling goroutine at the named point until it is released,
+// so that the real goroutines can be stepped through a chosen schedule.
+const VfOn = true
+
+var VfGateFn func(point string, key, val interface{})
+
+func VfGate(point string, key, val interface{}) {
+	if f := VfGateFn; f != nil {
+		f(point, key, val)
+	}
+}
